@@ -1,0 +1,16 @@
+//go:build verif
+// +build verif
+
+package main
+
+// Verification hook (compiled only with -tags verif): Incref and Decref call
+// verifYield between their atomic blocks, so that the /verif harness can drive
+// a chosen interleaving. Without a registered hook it does nothing.
+
+var verifHook func(point int)
+
+func verifYield(point int) {
+	if h := verifHook; h != nil {
+		h(point)
+	}
+}
